@@ -79,6 +79,11 @@ class Ctx:
     def note(self, k, v):
         self.notes[k] = _jsonable(v)
 
+    def emit(self, obj):
+        if not hasattr(self, 'emitted'):
+            self.emitted = []
+        self.emitted.append(obj)
+
     def bump(self, k, n=1):
         self.notes[k] = self.notes.get(k, 0) + n
 
